@@ -3,6 +3,7 @@ package main
 import (
 	"encoding/json"
 	"fmt"
+	"strings"
 	"time"
 
 	"verif/idp"
@@ -146,11 +147,64 @@ func c07Run(r *mc.Run) {
 func c04Run(r *mc.Run) {
 	r.Rule = "the attacker BFS and tree enumeration of C01 judged under 4 configurations (three stores + skip-signature) with the trust-indicator invariants: flag on Response => the returned Response equals field-for-field one the IdP signed; flag on assertion => that assertion carries its own honoured signature; unsigned root => every returned assertion flagged; skip => all flags false; summary flag = Response flag; plus the flag checks of C02's and C10's full products. non-trivial = accepted state; distinct = distinct (input, configuration)"
 	r.Assume("RSA/ECDSA unforgeable")
+	c04Logout(r)
 	attExplore(r, "C04")
 	treeExplore(r, "C04")
 }
 
+// c04Logout re-walks C10's full product and reports its trust-indicator findings under C04.
+func c04Logout(r *mc.Run) {
+	var cases []c10Case
+	mc.Enumerate(-1, r.Expired, func(ch *mc.Chooser) {
+		c := c10Case{}
+		c.Kind = []string{"LogoutRequest", "LogoutResponse"}[ch.Choose("kind", 2)]
+		c.Dest = ch.Choose("dest", 2)
+		c.Issuer = ch.Choose("issuer", 2)
+		if c.Kind == "LogoutResponse" {
+			c.Status = ch.Choose("status", 2) * 3
+		}
+		c.Sign = ch.Choose("sign", len(c10Sign))
+		c.Deflate = ch.Bool("deflate")
+		c.SkipSig = ch.Bool("skip")
+		c.NoIssuer = ch.Bool("noissuer")
+		cases = append(cases, c)
+	})
+	r.Par(len(cases), func(i int) {
+		c := cases[i]
+		keys, detail, class := c10Exec(c)
+		r.Eval(1)
+		r.State(1)
+		r.Transition(1)
+		r.Bucket("logout/" + class)
+		for _, k := range keys {
+			if strings.Contains(k, "flag") || strings.Contains(k, "reported-as-validated") || strings.Contains(k, "returned-fields-differ") {
+				r.Violation("C04/logout/"+strings.TrimPrefix(k, "C10/"), detail, c)
+			}
+		}
+	})
+}
+
 func init() {
 	register("C07", &check{run: c07Run, replay: c07Replay, quick: 300 * time.Second, thor: 1500 * time.Second})
-	register("C04", &check{run: c04Run, replay: attReplay("C04"), quick: 300 * time.Second, thor: 1500 * time.Second})
+	register("C04", &check{run: c04Run, replay: c04Replay, quick: 300 * time.Second, thor: 1500 * time.Second})
+}
+
+func c04Replay(raw json.RawMessage) ([]string, string) {
+	var probe struct {
+		Input string `json:"input"`
+	}
+	json.Unmarshal(raw, &probe)
+	if probe.Input != "" {
+		return attReplay("C04")(raw)
+	}
+	var c c10Case
+	if err := json.Unmarshal(raw, &c); err != nil {
+		return nil, err.Error()
+	}
+	keys, detail, _ := c10Exec(c)
+	var out []string
+	for _, k := range keys {
+		out = append(out, "C04/logout/"+strings.TrimPrefix(k, "C10/"))
+	}
+	return out, detail
 }
